@@ -305,7 +305,12 @@ def run(ctx):
     q_huge = boxes_over(huge)
     extreme = [-1.6e308, -1.1e308, 1.1e308, 1.6e308]      # xmin + xmax overflows, xmin/2 + xmax/2 does not
     q_extreme = boxes_over(extreme)
-    for alphabet, q_alpha in ((tenths, q_tenths), (huge, q_huge), (extreme, q_extreme)):
+    # ... and whole numbers given as Python ints that no double can hold (compared exactly by
+    # the language; an implementation that passes them through float arithmetic moves them)
+    bigints = [10 ** 17, 10 ** 17 + 1, 10 ** 17 + 3, 10 ** 17 + 4]
+    q_bigints = boxes_over(bigints)
+    for alphabet, q_alpha in ((tenths, q_tenths), (huge, q_huge), (extreme, q_extreme),
+                              (bigints, q_bigints)):
         for size in (1, 2):
             for chunk in core.split(range(len(q_alpha)), 25):
                 jobs.append(("multi", (alphabet, chunk, size, q_alpha)))
